@@ -112,14 +112,19 @@ pub fn part() -> Box<dyn Part> {
                 prop_oneof![3 => Just(None), 1 => (1..12usize).prop_map(Some)],
                 prop::collection::vec(
                     prop_oneof![
-                        6 => typed_issue(),
-                        1 => simgen::change_names(2).prop_map(|n| simgen::GenStep::Plain(Step::Change(n))),
-                        1 => simgen::advance().prop_map(simgen::GenStep::Plain),
+                        12 => typed_issue().prop_map(|s| vec![s]),
+                        2 => simgen::change_names(2).prop_map(|n| vec![simgen::GenStep::Plain(Step::Change(n))]),
+                        2 => simgen::advance().prop_map(|s| vec![simgen::GenStep::Plain(s)]),
+                        // a typed list whose reply takes minutes, the next list right behind it
+                        1 => (simgen::slow_reply_block_of(typed_issue().boxed()), typed_issue()).prop_map(|(mut b, next)| {
+                            b.push(next);
+                            b
+                        }),
                     ],
                     1..=8usize,
                 ),
             )
-                .prop_map(|(seed, seg, mw, gen)| simgen::assemble(seed, seg, mw, gen))
+                .prop_map(|(seed, seg, mw, gen)| simgen::assemble(seed, seg, mw, gen.into_iter().flatten().collect()))
                 .boxed()
         }),
         check: Box::new(check),
